@@ -44,7 +44,7 @@ func runC19(c *Ctx) {
 				continue
 			}
 			// the option-parsing error is passed through
-			if _, m := Match(Extract("1", Call("rwriter.getOpts")), e); m {
+			if _, m := Match(Extract("1", c.RoleCall("rwriter.opts")), e); m {
 				continue
 			}
 			n++
